@@ -638,6 +638,32 @@ def opInferOr (j : Json) : Except String Json := do
   pure <| Json.mkObj [("node", ptreeJson (O2P.Gate.inferOrNode sets t)),
     ("all", ptreeJson (O2P.Gate.inferOrAll sets 50 t))]
 
+partial def gateOfPTree : O2P.Gate.PTree → Option Gate
+  | .leaf a => some (.leaf a)
+  | .tau => some (.leaf "tau")
+  | .node op cs => do
+    let o ← match op with
+      | .and => some Op.and
+      | .or => some Op.or
+      | .xor => some Op.xor
+      | .other => none
+    pure (.node o (← cs.mapM gateOfPTree))
+
+/-- the post-processing of `calculate_logic_gates` on a raw miner tree: every outcome (every choice `max` may make in
+the cover step), each judged against the source tree when one is given -/
+def opPost (j : Json) : Except String Json := do
+  let sets ← (← getArr j "sets").toList.mapM strsOf
+  let t ← ptreeOfJson (← j.getObjVal? "raw")
+  let outs := O2P.Gate.postProcess sets t
+  let verdicts ← match j.getObjVal? "src" with
+    | .ok sj => do
+      let src ← gateOfJson sj
+      pure (outs.map fun o => match gateOfPTree o with
+        | some g => Json.mkObj [("sound", soundB src g), ("exact", exactB src g)]
+        | none => Json.mkObj [("error", "not a gate tree")])
+    | .error _ => pure []
+  pure <| Json.mkObj [("outcomes", Json.arr (outs.map ptreeJson).toArray), ("verdicts", Json.arr verdicts.toArray)]
+
 def opJudge (j : Json) : Except String Json := do
   let src ← gateOfJson (← (j.getObjVal? "src"))
   match j.getObjVal? "inferred" with
@@ -673,6 +699,7 @@ def handle (j : Json) : Except String Json := do
   | "gate.judge" => GateOps.opJudge j
   | "gate.cover" => GateOps.opCover j
   | "gate.inferor" => GateOps.opInferOr j
+  | "gate.post" => GateOps.opPost j
   | _ => throw s!"unknown op {op}"
 
 partial def loop (h : IO.FS.Stream) (out : IO.FS.Stream) : IO Unit := do
